@@ -135,7 +135,12 @@ class RefMatcher:
         if self.side == "w":
             good, got = self.writer_count_is(t, cnt)
             if not good:
-                return self.bad(t, f"layout array `{name}` has `{cnt}` elements; the writer emits {got}")
+                nd = _node(t)
+                if nd is not None:
+                    import copy as _copy
+                    nd = _copy.copy(nd)
+                    nd._sa_construct = f"layout array {name} element count"
+                return self.emit(False, nd, f"layout array `{name}` has `{cnt}` elements; the writer emits {got}")
             self.note_attr(name, t.value, t)
         else:
             if t.count is None or not self.reader_count_is(t.count, cnt):
